@@ -16,7 +16,22 @@ def build_corpus(tier, seed):
         exh_complete = len(cases) == total
         nrand = 1500
     rc = corpus.random_cases(nrand * 4, seed, start_id=len(cases) + 1, shells=gen.SHELLS, depth=4)
-    return cases + rc, total, exh_complete
+    # acyclic definition graphs with shared descendants, definitions in random order
+    from props import c08
+    dag = []
+    chains = []
+    for depth in (3, 4, 5, 6):
+        names = ["N%d" % i for i in range(depth)]
+        defs = [(nm, "", ("seq", [gen.L("w%d" % i), gen.R(names[i + 1])]) if i + 1 < depth else ("alt", [gen.L("foo"), gen.L("bar")])) for i, nm in enumerate(names)]
+        chains.append(([("seq", [gen.R(names[0]), gen.L("end")])], defs))
+        chains.append(([("seq", [("sub", [gen.L("--k="), gen.R(names[0])]), gen.L("end")])], [(nm, s_, ("alt", [gen.L("v%d" % i), gen.R(names[i + 1])]) if i + 1 < depth else b) for i, (nm, s_, b) in enumerate(defs)]))
+    for variants, defs in chains + c08.dag_grammars(rnd, 40 if tier == "quick" else 600):
+        for k in range(2):
+            ds = list(defs)
+            rnd.shuffle(ds)
+            c = gen.case(variants, ds, shell=rnd.choice(gen.SHELLS))
+            dag.append(corpus.finish(c, len(cases) + len(rc) + len(dag) + 1, origin="dag"))
+    return cases + rc + dag, total, exh_complete
 
 
 def run(tier):
